@@ -636,6 +636,7 @@ func main() {
 	r.Assume("immutability is claimed for the value the import expression yields (docs: \"export-ed values are always immutable\"); containers nested inside it stay mutable (the VM's immutable conversion is shallow), so writes through a nested container are only required to leave the top level (element identity, type) unchanged")
 	r.Assume("non-termination of import resolution is detected by a bound on resolver calls (32 per compile; a compiler with a correct cycle check needs at most one call per simple import path from main plus one, <= 31 below the bound, and <= 12 with the module cache) instead of waiting for the Go stack to overflow; any other hang by a 25 s watchdog")
 	r.Assume("module bodies are recognised in the constant pool by a unique marker string constant loaded in the body's first statement")
+	r.Assume("with file import enabled, a name that is not in the module map is read from the file below the script's import directory when SetImportDir was called (every name, also an absolute one, is joined to it) and below the working directory otherwise - also when the import expression stands in a module taken from the module map (docs/interoperability.md: SetImportDir sets the initial import directory for script files); decoys at every candidate place name the place they were found in")
 	r.Assume("import(\"\") is rejected as 'empty module name' under every setting; the property's 'not found' wording is not demanded for it")
 	cleanup()
 	r.Finish(coverage(total))
